@@ -3,7 +3,6 @@ package own
 import (
 	"fmt"
 	"go/types"
-	"strings"
 
 	"calcsa/absint"
 
@@ -54,11 +53,6 @@ func (e *eng) dumpWalk() {
 			case callee.Name() == "Abbrev":
 				return absint.NewVar("abbrev", types.Typ[types.String]), true
 			case pkg == "fmt":
-				if callee.Name() == "Printf" && len(a) > 0 {
-					if s, ok := absint.ConstString(a[0]); ok && strings.HasPrefix(s, "IP:") {
-						frames = append(frames, cur)
-					}
-				}
 				if callee.Signature.Results().Len() == 1 {
 					return absint.NewVar("s", callee.Signature.Results().At(0).Type()), true
 				}
@@ -97,7 +91,10 @@ func (e *eng) dumpWalk() {
 		}
 		in.Hooks.Slice = func(in *absint.Interp, x absint.Val, lo, hi, max absint.Val, site ssa.Instruction) (absint.Val, bool) {
 			if absint.Key(x) == "ST" {
+				// the arguments are the last thing read of a frame: the frame is
+				// complete, however it is printed
 				cur.args = "stack[" + absint.Key(lo) + " : " + absint.Key(hi) + "]"
+				frames = append(frames, cur)
 				return absint.NewSliceIn(in, nil, nil), true
 			}
 			return nil, false
